@@ -5,7 +5,7 @@ Require Extraction.
 Require Import ExtrOcamlBasic.
 From Coq Require Import ZArith List.
 From Cedar Require Import Base.Int64 Lang.Value Lang.Expr Impl.Authorize Impl.Like Impl.Eval
-  Impl.Decimal Impl.Duration Impl.Datetime Impl.IPAddr Impl.Fold Impl.PolicySet Impl.HashSet Impl.Partial Impl.Batch Impl.Hash Impl.SetTable Generated.Tables.
+  Impl.Decimal Impl.Duration Impl.Datetime Impl.IPAddr Impl.Fold Impl.PolicySet Impl.HashSet Impl.Partial Impl.Batch Impl.Hash Impl.SetTable Generated.Tables Impl.Scanner Impl.Tokenizer Lang.Cursor.
 Extraction Language OCaml.
 Extraction "model.ml"
   Authorize.authorize
@@ -20,4 +20,5 @@ Extraction "model.ml"
   PolicySet.run
   Partial.partial_policy Partial.partial
   Batch.batch_authorize
-  SetTable.marshal_order Value.vmem Value.dedup.
+  SetTable.marshal_order Value.vmem Value.dedup
+  Tokenizer.tokenize Cursor.spec_tokenize.
